@@ -287,7 +287,10 @@ func addLineText(p *lineParser) {
 		// as on the paragraph's first line, leading spaces and tabs are skipped.
 		p.ConsumeIndent(p.Indent())
 	case blockRules[k].acceptsLines:
-		if p.i < len(p.line) && p.line[p.i] == '\t' && p.tabRemaining > 0 && p.tabRemaining < tabStopSize {
+		// A tab that was only partly used up as indentation
+		// stands for the columns that are left of it.
+		// (A whole tab, at whatever column, is content.)
+		if p.i < len(p.line) && p.line[p.i] == '\t' && p.tabConsumed && p.tabRemaining > 0 {
 			p.container.inlineChildren = append(p.container.inlineChildren, &Inline{
 				kind:   IndentKind,
 				indent: int(p.tabRemaining),
